@@ -70,3 +70,465 @@ VARIANTS = [
  dict(name='benign-explicit-artifact-type', file=R, expect='silent',
       find='oras.PackManifestVersion1_1, "", opts)', replace='oras.PackManifestVersion1_1, ArtifactTypeNotation, opts)'),
 ]
+
+
+# ---------------------------------------------------------------------------------------------------------------
+# Shapes the generalised rule set accepts (behaviour-preserving refactorings benign/out-C19/1..4), each with the
+# same shape *broken*. The shape texts are whole blocks of registry/repository.go; sub() edits a block exactly once.
+# ---------------------------------------------------------------------------------------------------------------
+
+LOOP0 = r'''	for _, node := range predecessors {
+		switch node.MediaType {
+		case artifactspec.MediaTypeArtifactManifest:
+			if node.Size > maxManifestSizeLimit {
+				return nil, fmt.Errorf("referrer node too large: %d bytes", node.Size)
+			}
+			fetched, err := content.FetchAll(ctx, target, node)
+			if err != nil {
+				return nil, err
+			}
+			var artifact artifactspec.Artifact
+			if err := json.Unmarshal(fetched, &artifact); err != nil {
+				return nil, err
+			}
+			if artifact.Subject == nil || !content.Equal(*artifact.Subject, desc) {
+				continue
+			}
+			node.ArtifactType = artifact.ArtifactType
+			node.Annotations = artifact.Annotations
+		case ocispec.MediaTypeImageManifest:
+			if node.Size > maxManifestSizeLimit {
+				return nil, fmt.Errorf("referrer node too large: %d bytes", node.Size)
+			}
+			fetched, err := content.FetchAll(ctx, target, node)
+			if err != nil {
+				return nil, err
+			}
+			var image ocispec.Manifest
+			if err := json.Unmarshal(fetched, &image); err != nil {
+				return nil, err
+			}
+			if image.Subject == nil || !content.Equal(*image.Subject, desc) {
+				continue
+			}
+			node.ArtifactType = image.Config.MediaType
+			node.Annotations = image.Annotations
+		default:
+			continue
+		}
+		// only keep nodes of "application/vnd.cncf.notary.signature"
+		if node.ArtifactType == ArtifactTypeNotation {
+			results = append(results, node)
+		}
+	}
+'''
+
+LOOP_GUARD = r'''	for i := 0; i < len(predecessors); i++ {
+		node := predecessors[i]
+		isArtifactManifest := node.MediaType == artifactspec.MediaTypeArtifactManifest
+		if !isArtifactManifest && node.MediaType != ocispec.MediaTypeImageManifest {
+			// neither an OCI artifact manifest nor an OCI image manifest
+			continue
+		}
+		if node.Size > maxManifestSizeLimit {
+			return nil, fmt.Errorf("referrer node too large: %d bytes", node.Size)
+		}
+		fetched, err := content.FetchAll(ctx, target, node)
+		if err != nil {
+			return nil, err
+		}
+		if isArtifactManifest {
+			var artifact artifactspec.Artifact
+			if err := json.Unmarshal(fetched, &artifact); err != nil {
+				return nil, err
+			}
+			if artifact.Subject == nil {
+				continue
+			}
+			if !content.Equal(*artifact.Subject, desc) {
+				continue
+			}
+			node.ArtifactType = artifact.ArtifactType
+			node.Annotations = artifact.Annotations
+		} else {
+			var image ocispec.Manifest
+			if err := json.Unmarshal(fetched, &image); err != nil {
+				return nil, err
+			}
+			if image.Subject == nil {
+				continue
+			}
+			if !content.Equal(*image.Subject, desc) {
+				continue
+			}
+			node.ArtifactType = image.Config.MediaType
+			node.Annotations = image.Annotations
+		}
+		// only keep nodes of "application/vnd.cncf.notary.signature"
+		if node.ArtifactType != ArtifactTypeNotation {
+			continue
+		}
+		results = append(results, node)
+	}
+'''
+
+LOOP_LOCALS = r'''	for _, node := range predecessors {
+		var (
+			artifactType string
+			annotations  map[string]string
+		)
+		switch node.MediaType {
+		case artifactspec.MediaTypeArtifactManifest:
+			if node.Size > maxManifestSizeLimit {
+				return nil, fmt.Errorf("referrer node too large: %d bytes", node.Size)
+			}
+			fetched, err := content.FetchAll(ctx, target, node)
+			if err != nil {
+				return nil, err
+			}
+			var artifact artifactspec.Artifact
+			if err := json.Unmarshal(fetched, &artifact); err != nil {
+				return nil, err
+			}
+			if artifact.Subject == nil || !content.Equal(*artifact.Subject, desc) {
+				continue
+			}
+			artifactType = artifact.ArtifactType
+			annotations = artifact.Annotations
+		case ocispec.MediaTypeImageManifest:
+			if node.Size > maxManifestSizeLimit {
+				return nil, fmt.Errorf("referrer node too large: %d bytes", node.Size)
+			}
+			fetched, err := content.FetchAll(ctx, target, node)
+			if err != nil {
+				return nil, err
+			}
+			var image ocispec.Manifest
+			if err := json.Unmarshal(fetched, &image); err != nil {
+				return nil, err
+			}
+			if image.Subject == nil || !content.Equal(*image.Subject, desc) {
+				continue
+			}
+			artifactType = image.Config.MediaType
+			annotations = image.Annotations
+		default:
+			continue
+		}
+		// only keep nodes of "application/vnd.cncf.notary.signature"
+		if artifactType == ArtifactTypeNotation {
+			signatureManifest := node
+			signatureManifest.ArtifactType = artifactType
+			signatureManifest.Annotations = annotations
+			results = append(results, signatureManifest)
+		}
+	}
+'''
+
+LOOKUP0 = r'''func (c *repositoryClient) getSignatureBlobDesc(ctx context.Context, sigManifestDesc ocispec.Descriptor) (ocispec.Descriptor, error) {
+	if sigManifestDesc.MediaType != artifactspec.MediaTypeArtifactManifest && sigManifestDesc.MediaType != ocispec.MediaTypeImageManifest {
+		return ocispec.Descriptor{}, fmt.Errorf("sigManifestDesc.MediaType requires %q or %q, got %q", artifactspec.MediaTypeArtifactManifest, ocispec.MediaTypeImageManifest, sigManifestDesc.MediaType)
+	}
+	if sigManifestDesc.Size > maxManifestSizeLimit {
+		return ocispec.Descriptor{}, fmt.Errorf("signature manifest too large: %d bytes", sigManifestDesc.Size)
+	}
+
+	// get the signature manifest from sigManifestDesc
+	var fetcher content.Fetcher = c.GraphTarget
+	if repo, ok := c.GraphTarget.(registry.Repository); ok {
+		fetcher = repo.Manifests()
+	}
+	manifestJSON, err := content.FetchAll(ctx, fetcher, sigManifestDesc)
+	if err != nil {
+		return ocispec.Descriptor{}, err
+	}
+
+	// get the signature blob descriptor from signature manifest
+	var signatureBlobs []ocispec.Descriptor
+	// OCI image manifest
+	if sigManifestDesc.MediaType == ocispec.MediaTypeImageManifest {
+		var sigManifest ocispec.Manifest
+		if err := json.Unmarshal(manifestJSON, &sigManifest); err != nil {
+			return ocispec.Descriptor{}, err
+		}
+		signatureBlobs = sigManifest.Layers
+	} else { // OCI artifact manifest
+		var sigManifest artifactspec.Artifact
+		if err := json.Unmarshal(manifestJSON, &sigManifest); err != nil {
+			return ocispec.Descriptor{}, err
+		}
+		signatureBlobs = sigManifest.Blobs
+	}
+
+	if len(signatureBlobs) != 1 {
+		return ocispec.Descriptor{}, fmt.Errorf("signature manifest requries exactly one signature envelope blob, got %d", len(signatureBlobs))
+	}
+
+	return signatureBlobs[0], nil
+}
+
+'''
+
+LOOKUP_HELPERS = r'''func (c *repositoryClient) getSignatureBlobDesc(ctx context.Context, sigManifestDesc ocispec.Descriptor) (ocispec.Descriptor, error) {
+	if err := validateSignatureManifestDesc(sigManifestDesc); err != nil {
+		return ocispec.Descriptor{}, err
+	}
+
+	// get the signature manifest from sigManifestDesc
+	manifestJSON, err := content.FetchAll(ctx, c.manifestFetcher(), sigManifestDesc)
+	if err != nil {
+		return ocispec.Descriptor{}, err
+	}
+
+	// get the signature blob descriptor from signature manifest
+	signatureBlobs, err := signatureBlobsOf(sigManifestDesc.MediaType, manifestJSON)
+	if err != nil {
+		return ocispec.Descriptor{}, err
+	}
+	if len(signatureBlobs) != 1 {
+		return ocispec.Descriptor{}, fmt.Errorf("signature manifest requries exactly one signature envelope blob, got %d", len(signatureBlobs))
+	}
+
+	return signatureBlobs[0], nil
+}
+
+// validateSignatureManifestDesc checks that sigManifestDesc describes a
+// manifest of a supported media type that is within the manifest size limit.
+func validateSignatureManifestDesc(sigManifestDesc ocispec.Descriptor) error {
+	if sigManifestDesc.MediaType != artifactspec.MediaTypeArtifactManifest && sigManifestDesc.MediaType != ocispec.MediaTypeImageManifest {
+		return fmt.Errorf("sigManifestDesc.MediaType requires %q or %q, got %q", artifactspec.MediaTypeArtifactManifest, ocispec.MediaTypeImageManifest, sigManifestDesc.MediaType)
+	}
+	if sigManifestDesc.Size > maxManifestSizeLimit {
+		return fmt.Errorf("signature manifest too large: %d bytes", sigManifestDesc.Size)
+	}
+	return nil
+}
+
+// manifestFetcher returns the fetcher used for reading manifests from the
+// underlying target.
+func (c *repositoryClient) manifestFetcher() content.Fetcher {
+	if repo, ok := c.GraphTarget.(registry.Repository); ok {
+		return repo.Manifests()
+	}
+	return c.GraphTarget
+}
+
+// signatureBlobsOf decodes a signature manifest of the given media type and
+// returns the descriptors of its layers (OCI image manifest) or blobs
+// (OCI artifact manifest).
+func signatureBlobsOf(mediaType string, manifestJSON []byte) ([]ocispec.Descriptor, error) {
+	// OCI image manifest
+	if mediaType == ocispec.MediaTypeImageManifest {
+		var sigManifest ocispec.Manifest
+		if err := json.Unmarshal(manifestJSON, &sigManifest); err != nil {
+			return nil, err
+		}
+		return sigManifest.Layers, nil
+	}
+	// OCI artifact manifest
+	var sigManifest artifactspec.Artifact
+	if err := json.Unmarshal(manifestJSON, &sigManifest); err != nil {
+		return nil, err
+	}
+	return sigManifest.Blobs, nil
+}
+
+'''
+
+REFHELPER = r'''// fetchReferrerManifest returns the manifest content of the referrer node
+// after enforcing the manifest size limit on its descriptor.
+func fetchReferrerManifest(ctx context.Context, target content.ReadOnlyGraphStorage, node ocispec.Descriptor) ([]byte, error) {
+	if node.Size > maxManifestSizeLimit {
+		return nil, fmt.Errorf("referrer node too large: %d bytes", node.Size)
+	}
+	return content.FetchAll(ctx, target, node)
+}
+'''
+
+FETCHV = r'''// fetchVerified fetches the content identified by desc from fetcher, reads
+// exactly desc.Size bytes and verifies them against desc.Digest.
+func fetchVerified(ctx context.Context, fetcher content.Fetcher, desc ocispec.Descriptor) ([]byte, error) {
+	rc, err := fetcher.Fetch(ctx, desc)
+	if err != nil {
+		return nil, err
+	}
+	defer rc.Close()
+	return content.ReadAll(rc, desc)
+}
+
+'''
+
+SAMEC = r'''// sameContent reports whether a and b identify the same content, i.e. agree
+// on media type, digest and size.
+func sameContent(a, b ocispec.Descriptor) bool {
+	return a.MediaType == b.MediaType && a.Digest == b.Digest && a.Size == b.Size
+}
+'''
+
+CFG0 = r'''func pushNotationManifestConfig(ctx context.Context, pusher content.Storage) (ocispec.Descriptor, error) {
+	// check if the config exists
+	exists, err := pusher.Exists(ctx, notationEmptyConfigDesc)
+	if err != nil {
+		return ocispec.Descriptor{}, fmt.Errorf("unable to verify existence: %s: %s. Details: %w", notationEmptyConfigDesc.Digest.String(), notationEmptyConfigDesc.MediaType, err)
+	}
+	if exists {
+		return notationEmptyConfigDesc, nil
+	}
+
+	// return nil if the config pushed successfully or it already exists
+	if err := pusher.Push(ctx, notationEmptyConfigDesc, bytes.NewReader(notationEmptyConfigData)); err != nil && !errors.Is(err, errdef.ErrAlreadyExists) {
+		return ocispec.Descriptor{}, fmt.Errorf("unable to push: %s: %s. Details: %w", notationEmptyConfigDesc.Digest.String(), notationEmptyConfigDesc.MediaType, err)
+	}
+	return notationEmptyConfigDesc, nil
+}
+
+'''
+
+CFG_COPY = r'''func pushNotationManifestConfig(ctx context.Context, pusher content.Storage) (ocispec.Descriptor, error) {
+	configDesc := notationEmptyConfigDesc
+
+	// check if the config exists
+	exists, err := pusher.Exists(ctx, configDesc)
+	if err != nil {
+		return ocispec.Descriptor{}, fmt.Errorf("unable to verify existence: %s: %s. Details: %w", configDesc.Digest.String(), configDesc.MediaType, err)
+	}
+	if exists {
+		return configDesc, nil
+	}
+
+	// return nil if the config pushed successfully or it already exists
+	if err := pusher.Push(ctx, configDesc, bytes.NewReader(notationEmptyConfigData)); err != nil && !errors.Is(err, errdef.ErrAlreadyExists) {
+		return ocispec.Descriptor{}, fmt.Errorf("unable to push: %s: %s. Details: %w", configDesc.Digest.String(), configDesc.MediaType, err)
+	}
+	return configDesc, nil
+}
+
+'''
+
+
+def sub(s, a, b):
+    assert s.count(a) == 1, (a, s.count(a))
+    return s.replace(a, b)
+
+END = '\treturn results, nil\n}\n'
+def tail(helper):
+    """append a function at the end of the file"""
+    return (R, END, END + '\n' + helper)
+
+CAPFETCH = '\t\t\tif node.Size > maxManifestSizeLimit {\n\t\t\t\treturn nil, fmt.Errorf("referrer node too large: %d bytes", node.Size)\n\t\t\t}\n\t\t\tfetched, err := content.FetchAll(ctx, target, node)\n'
+REFCAP = '\tif node.Size > maxManifestSizeLimit {\n\t\treturn nil, fmt.Errorf("referrer node too large: %d bytes", node.Size)\n\t}\n'
+BLOBCAP = '\tif sigBlobDesc.Size > maxBlobSizeLimit {\n\t\treturn nil, ocispec.Descriptor{}, fmt.Errorf("signature blob too large: %d bytes", sigBlobDesc.Size)\n\t}\n'
+PUSH0 = '\tblobDesc, err = oras.PushBytes(ctx, pusher, mediaType, blob)\n\tif err != nil {\n\t\treturn ocispec.Descriptor{}, ocispec.Descriptor{}, err\n\t}\n'
+PUSH_SPLIT = '\tblobDesc = content.NewDescriptorFromBytes(mediaType, blob)\n\tif err = pusher.Push(ctx, blobDesc, bytes.NewReader(blob)); err != nil {\n\t\treturn ocispec.Descriptor{}, ocispec.Descriptor{}, err\n\t}\n'
+GUARD = '\t\tif !isArtifactManifest && node.MediaType != ocispec.MediaTypeImageManifest {\n\t\t\t// neither an OCI artifact manifest nor an OCI image manifest\n\t\t\tcontinue\n\t\t}\n'
+LOCALS = '\t\tvar (\n\t\t\tartifactType string\n\t\t\tannotations  map[string]string\n\t\t)\n'
+LOOP_LOCALS_HOISTED = sub(LOOP_LOCALS, '\tfor _, node := range predecessors {\n' + LOCALS, LOCALS.replace('\t\t', '\t', 1).replace('\n\t\t', '\n\t') + '\tfor _, node := range predecessors {\n')
+
+VARIANTS += [
+ # -- the capped fetch of a referrer extracted into a helper (refactoring 1)
+ dict(name='shape-referrer-fetch-helper', file=R, expect='silent', all=True,
+      find=CAPFETCH, replace='\t\t\tfetched, err := fetchReferrerManifest(ctx, target, node)\n', edits=[tail(REFHELPER)]),
+ dict(name='shape-referrer-fetch-helper-cap-lost', file=R, expect='flagged(cap)', all=True,
+      find=CAPFETCH, replace='\t\t\tfetched, err := fetchReferrerManifest(ctx, target, node)\n', edits=[tail(sub(REFHELPER, REFCAP, ''))],
+      why='the cap did not make it into the extracted helper: the sink\'s descriptor is the helper\'s parameter, the obligation moves to the call sites, which do not cap either'),
+ # -- the lookup split into a validating helper and a decoding helper (refactoring 1)
+ dict(name='shape-lookup-helpers', file=R, expect='silent', find=LOOKUP0, replace=LOOKUP_HELPERS),
+ dict(name='shape-lookup-helpers-any-media-type', file=R, expect='flagged(lookup/media-type)', find=LOOKUP0,
+      replace=sub(LOOKUP_HELPERS, 'func validateSignatureManifestDesc(sigManifestDesc ocispec.Descriptor) error {\n\tif sigManifestDesc.MediaType != artifactspec.MediaTypeArtifactManifest && sigManifestDesc.MediaType != ocispec.MediaTypeImageManifest {',
+                  'func validateSignatureManifestDesc(sigManifestDesc ocispec.Descriptor) error {\n\tif sigManifestDesc.MediaType == "" {')),
+ dict(name='shape-lookup-helpers-validation-ignored', file=R, expect='flagged(lookup/media-type)', find=LOOKUP0,
+      replace=sub(LOOKUP_HELPERS, '\tif err := validateSignatureManifestDesc(sigManifestDesc); err != nil {\n\t\treturn ocispec.Descriptor{}, err\n\t}\n', '\t_ = validateSignatureManifestDesc(sigManifestDesc)\n')),
+ dict(name='shape-lookup-helpers-decode-swapped', file=R, expect='flagged(lookup/decode-matches-media-type)', find=LOOKUP0,
+      replace=sub(LOOKUP_HELPERS, '\tif mediaType == ocispec.MediaTypeImageManifest {', '\tif mediaType != ocispec.MediaTypeImageManifest {')),
+ dict(name='shape-lookup-helpers-decode-error-ignored', file=R, expect='flagged(lookup/decode-error)', find=LOOKUP0,
+      replace=sub(LOOKUP_HELPERS, '\tvar sigManifest artifactspec.Artifact\n\tif err := json.Unmarshal(manifestJSON, &sigManifest); err != nil {\n\t\treturn nil, err\n\t}\n', '\tvar sigManifest artifactspec.Artifact\n\t_ = json.Unmarshal(manifestJSON, &sigManifest)\n')),
+ dict(name='shape-lookup-helpers-helper-error-ignored', file=R, expect='flagged(lookup/decode-error)', find=LOOKUP0,
+      replace=sub(LOOKUP_HELPERS, '\tsignatureBlobs, err := signatureBlobsOf(sigManifestDesc.MediaType, manifestJSON)\n\tif err != nil {\n\t\treturn ocispec.Descriptor{}, err\n\t}\n', '\tsignatureBlobs, _ := signatureBlobsOf(sigManifestDesc.MediaType, manifestJSON)\n')),
+ dict(name='shape-lookup-helpers-config-as-blob', file=R, expect='flagged(lookup/exactly-one-blob)', find=LOOKUP0,
+      replace=sub(LOOKUP_HELPERS, '\t\treturn sigManifest.Layers, nil\n', '\t\treturn []ocispec.Descriptor{sigManifest.Config}, nil\n'),
+      why='the helper hands back the config descriptor: exactly one element, but not the layer list of the decoded manifest'),
+ # -- content.FetchAll replaced by a module function made of Fetch + ReadAll (refactoring 4)
+ dict(name='shape-fetch-verified', file=R, expect='silent', all=True, find='content.FetchAll(', replace='fetchVerified(', edits=[tail(FETCHV)]),
+ dict(name='shape-fetch-verified-unverified-read', file=R, expect='flagged(fetch/blob-fetch)', all=True, find='content.FetchAll(', replace='fetchVerified(',
+      edits=[tail(sub(FETCHV, '\treturn content.ReadAll(rc, desc)\n', '\treturn io.ReadAll(rc)\n')), (R, '\t"fmt"\n', '\t"fmt"\n\t"io"\n')],
+      why='io.ReadAll neither bounds the read by the declared size nor verifies the digest: not the read FetchAll performs'),
+ dict(name='shape-fetch-verified-blob-cap-dropped', file=R, expect='flagged(cap-before-fetch)', all=True, find='content.FetchAll(', replace='fetchVerified(',
+      edits=[tail(FETCHV), (R, BLOBCAP, '')]),
+ dict(name='shape-fetch-verified-cap-on-manifest-desc', file=R, expect='flagged(cap-before-fetch)', all=True, find='content.FetchAll(', replace='fetchVerified(',
+      edits=[tail(FETCHV), (R, '\tif sigBlobDesc.Size > maxBlobSizeLimit {', '\tif desc.Size > maxBlobSizeLimit {')]),
+ # -- content.Equal replaced by its definition (refactoring 4)
+ dict(name='shape-same-content', file=R, expect='silent', all=True, find='content.Equal(', replace='sameContent(', edits=[tail(SAMEC)]),
+ dict(name='shape-same-content-media-type-omitted', file=R, expect='flagged(subject-equality)', all=True, find='content.Equal(', replace='sameContent(',
+      edits=[tail(sub(SAMEC, 'a.MediaType == b.MediaType && ', ''))]),
+ dict(name='shape-subject-three-fields-inline', file=R, expect='silent',
+      find='!content.Equal(*image.Subject, desc)', replace='image.Subject.MediaType != desc.MediaType || image.Subject.Digest != desc.Digest || image.Subject.Size != desc.Size'),
+ dict(name='shape-subject-two-fields-inline', file=R, expect='flagged(list/image-manifest/subject-equality)',
+      find='!content.Equal(*image.Subject, desc)', replace='image.Subject.MediaType != desc.MediaType || image.Subject.Digest != desc.Digest'),
+ # -- oras.PushBytes replaced by its two steps (refactoring 4)
+ dict(name='shape-push-split', file=R, expect='silent', find=PUSH0, replace=PUSH_SPLIT),
+ dict(name='shape-push-split-media-type-fixed', file=R, expect='flagged(push/blob)', find=PUSH0,
+      replace=sub(PUSH_SPLIT, 'NewDescriptorFromBytes(mediaType, blob)', 'NewDescriptorFromBytes("application/jose+json", blob)')),
+ dict(name='shape-push-split-other-bytes', file=R, expect='flagged(push/blob)', find=PUSH0,
+      replace=sub(PUSH_SPLIT, 'bytes.NewReader(blob)', 'bytes.NewReader(blob[:len(blob)/2])')),
+ dict(name='shape-push-split-error-ignored', file=R, expect='flagged(push/blob-error)', find=PUSH0,
+      replace='\tblobDesc = content.NewDescriptorFromBytes(mediaType, blob)\n\t_ = pusher.Push(ctx, blobDesc, bytes.NewReader(blob))\n'),
+ # -- the listing loop with a guard clause, shared cap + fetch, if/else on a media-type flag, index loop (refactoring 2)
+ dict(name='shape-guard-clause-loop', file=R, expect='silent', find=LOOP0, replace=LOOP_GUARD),
+ dict(name='shape-guard-clause-loop-any-media-type', file=R, expect='flagged(list/only-manifest-media-types)', find=LOOP0, replace=sub(LOOP_GUARD, GUARD, '')),
+ dict(name='shape-guard-clause-loop-cap-dropped', file=R, expect='flagged(cap)', find=LOOP0,
+      replace=sub(LOOP_GUARD, '\t\tif node.Size > maxManifestSizeLimit {\n\t\t\treturn nil, fmt.Errorf("referrer node too large: %d bytes", node.Size)\n\t\t}\n', '')),
+ dict(name='shape-guard-clause-loop-fetch-error-ignored', file=R, expect='flagged(fetch-error)', find=LOOP0,
+      replace=sub(LOOP_GUARD, '\t\tfetched, err := content.FetchAll(ctx, target, node)\n\t\tif err != nil {\n\t\t\treturn nil, err\n\t\t}\n', '\t\tfetched, _ := content.FetchAll(ctx, target, node)\n')),
+ dict(name='shape-guard-clause-loop-image-subject-unchecked', file=R, expect='flagged(list/image-manifest/subject-equality)', find=LOOP0,
+      replace=sub(LOOP_GUARD, '\t\t\tif !content.Equal(*image.Subject, desc) {\n\t\t\t\tcontinue\n\t\t\t}\n', '')),
+ dict(name='shape-guard-clause-loop-filter-dropped', file=R, expect='flagged(artifact-type)', find=LOOP0,
+      replace=sub(LOOP_GUARD, '\t\tif node.ArtifactType != ArtifactTypeNotation {\n\t\t\tcontinue\n\t\t}\n', '')),
+ dict(name='shape-guard-clause-loop-first-element', file=R, expect='flagged(list/result)', find=LOOP0,
+      replace=sub(LOOP_GUARD, '\t\tnode := predecessors[i]\n', '\t\tnode := predecessors[0]\n')),
+ dict(name='shape-guard-clause-loop-flag-inverted', file=R, expect='flagged(list/artifact-manifest/decode)', find=LOOP0,
+      replace=sub(LOOP_GUARD, '\t\tif isArtifactManifest {\n', '\t\tif !isArtifactManifest {\n'),
+      why='artifact manifests are decoded as image manifests and vice versa'),
+ # -- the listing loop with per-iteration locals and a copy made for the result (refactoring 3)
+ dict(name='shape-locals-copy-loop', file=R, expect='silent', find=LOOP0, replace=LOOP_LOCALS),
+ dict(name='shape-locals-copy-loop-hoisted', file=R, expect='silent', find=LOOP0, replace=LOOP_LOCALS_HOISTED,
+      why='locals declared before the loop, but every path to the filter assigns both in the same iteration: nothing leaks'),
+ dict(name='shape-locals-copy-loop-image-type-not-set', file=R, expect='flagged(list/image-manifest/artifact-type-origin)', find=LOOP0,
+      replace=sub(LOOP_LOCALS, '\t\t\tartifactType = image.Config.MediaType\n', '')),
+ dict(name='shape-locals-copy-loop-hoisted-image-type-stale', file=R, expect='flagged(list/image-manifest/artifact-type-origin)', find=LOOP0,
+      replace=sub(LOOP_LOCALS_HOISTED, '\t\t\tartifactType = image.Config.MediaType\n', ''),
+      why='hoisted local not assigned on the image arm: an image manifest is judged by the previous referrer\'s type'),
+ dict(name='shape-locals-copy-loop-copy-of-first', file=R, expect='flagged(list/result)', find=LOOP0,
+      replace=sub(LOOP_LOCALS, '\t\t\tsignatureManifest := node\n', '\t\t\tsignatureManifest := predecessors[0]\n')),
+ dict(name='shape-locals-copy-loop-keeps-own-type', file=R, expect='flagged(artifact-type)', find=LOOP0,
+      replace=sub(LOOP_LOCALS, '\t\t\tsignatureManifest.ArtifactType = artifactType\n', '\t\t\tsignatureManifest.ArtifactType = node.ArtifactType\n')),
+ dict(name='shape-locals-copy-loop-keeps-own-annotations', file=R, expect='flagged(annotations)', find=LOOP0,
+      replace=sub(LOOP_LOCALS, '\t\t\tsignatureManifest.Annotations = annotations\n', '\t\t\t_ = annotations\n\t\t\tsignatureManifest.Annotations = node.Annotations\n')),
+ dict(name='shape-locals-copy-loop-media-type-rewritten', file=R, expect='flagged(list/element-identity)', find=LOOP0,
+      replace=sub(LOOP_LOCALS, '\t\t\tsignatureManifest.Annotations = annotations\n', '\t\t\tsignatureManifest.Annotations = annotations\n\t\t\tsignatureManifest.MediaType = ocispec.MediaTypeImageManifest\n')),
+ # -- a local copy of the immutable config descriptor (refactoring 3)
+ dict(name='shape-config-local-copy', file=R, expect='silent', find=CFG0, replace=CFG_COPY),
+ dict(name='shape-config-local-copy-retyped', file=R, expect='flagged(push/options/config)', find=CFG0,
+      replace=sub(CFG_COPY, '\tconfigDesc := notationEmptyConfigDesc\n', '\tconfigDesc := notationEmptyConfigDesc\n\tconfigDesc.MediaType = ocispec.MediaTypeEmptyJSON\n')),
+ dict(name='config-global-reassigned', file=R, expect='flagged(push/options/config)',
+      edits=[tail('func useConfigMediaType(mt string) {\n\tnotationEmptyConfigDesc.MediaType = mt\n}\n')]),
+ dict(name='config-global-address-handed-out', file=R, expect='flagged(push/options/config)',
+      edits=[tail('func configDescriptor() *ocispec.Descriptor {\n\treturn &notationEmptyConfigDesc\n}\n')]),
+]
+
+# -- the shapes combined
+VARIANTS += [
+ dict(name='shape-combined-guard-loop-own-fetch-own-equal', file=R, expect='silent', find=LOOP0,
+      replace=LOOP_GUARD.replace('content.FetchAll(', 'fetchVerified(').replace('content.Equal(', 'sameContent('),
+      edits=[(R, 'content.FetchAll(ctx, fetcher, sigBlobDesc)', 'fetchVerified(ctx, fetcher, sigBlobDesc)'),
+             (R, 'content.FetchAll(ctx, fetcher, sigManifestDesc)', 'fetchVerified(ctx, fetcher, sigManifestDesc)'),
+             tail(FETCHV + '\n' + SAMEC)]),
+ dict(name='shape-combined-guard-loop-own-fetch-own-equal-size-omitted', file=R, expect='flagged(subject-equality)', find=LOOP0,
+      replace=LOOP_GUARD.replace('content.FetchAll(', 'fetchVerified(').replace('content.Equal(', 'sameContent('),
+      edits=[(R, 'content.FetchAll(ctx, fetcher, sigBlobDesc)', 'fetchVerified(ctx, fetcher, sigBlobDesc)'),
+             (R, 'content.FetchAll(ctx, fetcher, sigManifestDesc)', 'fetchVerified(ctx, fetcher, sigManifestDesc)'),
+             tail(FETCHV + '\n' + sub(SAMEC, ' && a.Size == b.Size', ''))]),
+ dict(name='shape-combined-locals-loop-fetch-helper', file=R, expect='silent', find=LOOP0,
+      replace=LOOP_LOCALS.replace(CAPFETCH, '\t\t\tfetched, err := fetchReferrerManifest(ctx, target, node)\n'), edits=[tail(REFHELPER)]),
+ dict(name='shape-combined-locals-loop-fetch-helper-cap-lost', file=R, expect='flagged(cap)', find=LOOP0,
+      replace=LOOP_LOCALS.replace(CAPFETCH, '\t\t\tfetched, err := fetchReferrerManifest(ctx, target, node)\n'), edits=[tail(sub(REFHELPER, REFCAP, ''))]),
+]
